@@ -8,8 +8,11 @@ REPO = os.environ.get("VERIF_REPO", "/repo")
 COQ = os.path.join(VERIF, "coq")
 HARNESS = os.path.join(VERIF, "harness")
 WORKROOT = os.path.join(VERIF, ".work")
-EVIDENCE = os.path.join(VERIF, "evidence")
-REPLAYS = os.path.join(VERIF, "replays")
+# evidence and replays of runs against another tree than /repo (seeded changes,
+# scratch worktrees) are kept apart so they never overwrite the real ones
+_ALT = "" if os.path.realpath(REPO) == "/repo" else "-alt"
+EVIDENCE = os.path.join(VERIF, "evidence") if not _ALT else os.path.join(WORKROOT, "evidence-alt")
+REPLAYS = os.path.join(VERIF, "replays" + _ALT)
 NCPU = os.cpu_count() or 4
 
 GOENV = dict(os.environ, GOFLAGS="-mod=mod", GOPROXY="off", GOSUMDB="off",
